@@ -72,6 +72,7 @@ retry:
 	if ctx.Err() != nil {
 		deadPipe := deadFn()
 		deadPipe.error.Store(&errs{error: ctx.Err()})
+		deadPipe.noslot = true // not counted in p.size: Store must not give a slot back for it
 		v = deadPipe
 		verifEv(evAcqCtxDead, verifTid(ctx), p.size)
 		p.cond.L.Unlock()
@@ -127,7 +128,9 @@ func (p *pool) Store(v wire) {
 		v.ResetTimer()
 		verifEv(evStoreIdle, verifWid(v), verifB(p.timerOn))
 	} else {
-		p.size--
+		if dp, ok := v.(*pipe); !ok || !dp.noslot { // the dead pipe handed out for a done context never took a slot
+			p.size--
+		}
 		v.Close()
 		verifEv(evStoreDrop, verifWid(v), 0)
 	}
